@@ -6,6 +6,11 @@ unsorted column indices and duplicate entries are representable, exactly as in s
 scipy's conversions are external code: they are modelled by their result and validated on every run
 (`c01.canon` run lines compare the canonical form computed here with scipy's).
 Values are rationals: bool entries are 0/1, int and float entries their value ("entries of equal value").
+The only conversion that computes with the values is COO -> CSR (duplicates are summed *in the dtype of the
+matrix*): `DType` gives that arithmetic — `bool`: or; `int lo hi`: wrap-around in [lo, hi] (int8 = int (-128) 127,
+uint8 = int 0 255 ...); `float`: exact addition, which is what float64 / float32 compute as long as every partial sum
+is representable (the harness sends small dyadic values) — and the `…D` definitions below are the dtype-aware model;
+the definitions without `D` are its `float` instance.
 -/
 import SkNet.Model.Basic
 
@@ -82,5 +87,77 @@ def Container.WF : Container → Bool
   | .coo nRow nCol es => es.all fun e => e.1 < nRow && e.2.1 < nCol
   | .lil nCol rows => rows.all fun r => r.all fun p => p.1 < nCol
   | .dense nCol rows => rows.all fun r => r.length == nCol
+
+
+/-! ### the arithmetic of the dtype -/
+
+inductive DType
+  | float                       -- exact arithmetic (see the header)
+  | bool                        -- values 0 / 1, `+` is `or`
+  | int (lo hi : Int)           -- integers of [lo, hi], `+` wraps around
+deriving Repr, DecidableEq
+
+/-- two's-complement style wrap-around into `[lo, hi]` -/
+def wrap (lo hi z : Int) : Int := (z - lo) % (hi - lo + 1) + lo
+
+def DType.add : DType → Rat → Rat → Rat
+  | .float, a, b => a + b
+  | .bool, a, b => if a != 0 || b != 0 then 1 else 0
+  | .int lo hi, a, b => ((wrap lo hi (a.num + b.num) : Int) : Rat)
+
+/-- the values a matrix of that dtype can store -/
+def DType.mem : DType → Rat → Prop
+  | .float, _ => True
+  | .bool, a => a = 0 ∨ a = 1
+  | .int lo hi, a => a.den = 1 ∧ lo ≤ a.num ∧ a.num ≤ hi
+
+def int8 : DType := .int (-128) 127
+def uint8 : DType := .int 0 255
+def int32 : DType := .int (-2147483648) 2147483647
+def int64 : DType := .int (-9223372036854775808) 9223372036854775807
+
+/-- sum of a list of stored values in the dtype (scipy adds the duplicates one after the other) -/
+def sumD (dt : DType) (l : List Rat) : Rat := l.foldr dt.add 0
+
+/-- the values stored at position `(i, j)`, in storage order -/
+def cell : Container → Nat → Nat → List Rat
+  | .csr _ rows, i, j => ((rows.getD i []).filter fun p => p.1 == j).map (·.2)
+  | .csc _ cols, i, j => ((cols.getD j []).filter fun p => p.1 == i).map (·.2)
+  | .coo _ _ es, i, j => (es.filter fun e => e.1 == i && e.2.1 == j).map (·.2.2)
+  | .lil _ rows, i, j => ((rows.getD i []).filter fun p => p.1 == j).map (·.2)
+  | .dense _ rows, i, j => if (rows.getD i []).getD j 0 != 0 then [(rows.getD i []).getD j 0] else []
+
+/-- the matrix a container of dtype `dt` denotes: duplicates add up in the dtype -/
+def denoteD (dt : DType) (c : Container) (i j : Nat) : Rat := sumD dt (cell c i j)
+
+def rowEntryD (dt : DType) (r : Row) (j : Nat) : Rat := sumD dt ((r.filter fun p => p.1 == j).map (·.2))
+
+/-- `sparse.csr_matrix(x)` for a container of dtype `dt`: as `toCsrRows`, the COO duplicates summed in the dtype -/
+def toCsrRowsD (dt : DType) : Container → Rows
+  | .coo nRow nCol es => tab nRow fun i =>
+      (List.range nCol).filterMap fun j =>
+        let vs := (es.filter fun e => e.1 == i && e.2.1 == j).map (·.2.2)
+        if vs.isEmpty then none else some (j, sumD dt vs)
+  | c => toCsrRows c
+
+def checkFormatD (dt : DType) (c : Container) : Container := .csr c.nCol (toCsrRowsD dt c)
+
+/-- canonical form in the dtype (`sum_duplicates(); sort_indices(); eliminate_zeros()`), from the denotation -/
+def canonD (dt : DType) (nCol : Nat) (rows : Rows) : Rows :=
+  rows.map fun r => (List.range nCol).filterMap fun j =>
+    if rowEntryD dt r j != 0 then some (j, rowEntryD dt r j) else none
+
+/-! ### what the consumers of a CSR matrix read from its stored arrays (the bridges of the drivers C02, C10, C11, C14) -/
+
+/-- value matrix: stored entries of `(i, j)` added up (`Drive.C11.valMat`, `Drive.C14`) -/
+def valOf (rows : Rows) (i j : Nat) : Rat := rowEntry (rows.getD i []) j
+
+/-- edge predicate of the path functions: some stored entry `(i, j)` is non-zero (`Drive.C10.edgeMat`) -/
+def edgeOf (rows : Rows) (i j : Nat) : Bool := (rows.getD i []).any fun p => p.1 == j && p.2 != 0
+
+/-- adjacency lists of the Weisfeiler-Lehman kernel: the stored column indices, in storage order (`Csr.rowIdx`) -/
+def adjOf (rows : Rows) : List (List Nat) := rows.map fun r => r.map (·.1)
+
+def rowsWF (nCol : Nat) (rows : Rows) : Bool := rows.all fun r => r.all fun p => p.1 < nCol
 
 end SkNet.Fmt
